@@ -14,6 +14,8 @@ THEOREMS = [
     "TornadoModel.C06.cache_sound_run",
     "TornadoModel.C06.refines_multimap",
     "TornadoModel.C06.get_is_joined_list",
+    "TornadoModel.C06.field_line_is_add",
+    "TornadoModel.C06.obs_fold_extends_last_value",
     "TornadoModel.C06.present_deletable",
     "TornadoModel.C06.reported_deletable",
     "TornadoModel.C06.present_deletable_run",
@@ -42,10 +44,13 @@ RULE = ("op sequences over a small name/value alphabet with case variants, valid
 EXHAUSTIVE = {"quick": False, "thorough": False}
 CLAUSE_CAVEATS = [
     "copies are independent: the theorems (copy_equal, copy_behaves_as_multimap) describe each object's behaviour; that the two Python objects share no mutable state cannot be stated in the immutable model and rests on the copy cases of the correspondence stream",
-    "line parsing: Spec.parseLine shares its lexical helpers (stripEol, splitColon, stripWs, isToken, isFieldValue, appendToLast) with the model, so for the line grammar refines_multimap relates near-identical definitions; the independent check of the grammar is the Python reference reader (_ref_parse) applied to HTTPHeaders.parse on the parse cases, not a theorem",
+    "line parsing: Spec.parseLine shares its lexical helpers (stripEol, splitColon, stripWs, appendToLast) with the model, so for the line grammar refines_multimap relates near-identical definitions; what the helpers do on GRAMMATICAL lines is proved separately (field_line_is_add, obs_fold_extends_last_value: name ':' OWS value OWS / (SP|HTAB)+ text OWS, terminated by nothing, LF or CRLF); which malformed lines are rejected (and the odd terminators LF LF, CR LF LF) is checked only by the Python reference reader (_ref_parse) on the parse cases and by the correspondence, not by a theorem; isToken/isFieldValue are hand-transcriptions of the _ABNF regexes (TRUSTED)",
     "the _chars_are_bytes=False validation branch (multipart part headers) is outside Op/run and hence outside the theorems; it is covered by correspondence (parseU) and the reference reader only",
 ]
 CLAUSES = {
+    "line parsing including continuation lines":
+        "refines_multimap (parseLine op) + field_line_is_add + obs_fold_extends_last_value (grammar stated from the outside, "
+        "incl. cache invalidation on the fold path)",
     "behaves like an insertion-ordered multimap keyed by case-insensitive name":
         "refines_multimap + normalize_eq_iff_lower_eq + normalize_case_variants (all names, not only letters-and-hyphens; "
         "closed form of the stored key: normalize_eq_headerCase)",
